@@ -4,6 +4,7 @@ import (
 	"fmt"
 	"go/constant"
 	"go/token"
+	"go/types"
 	"sort"
 	"strings"
 
@@ -253,4 +254,132 @@ func associativity(body, levelFn *ssa.Function, generic bool) string {
 		return "left"
 	}
 	return "none"
+}
+
+// DropRule (R-C01-drop): a node that collects parsed parts field by field inside a loop
+// (the if-chain a switch is rewritten to: first case → ifBranch, later cases → elifBranches,
+// default → elseBranch) is never replaced as a whole inside that loop: a whole-value
+// store discards what earlier iterations stored (a default written before the first case).
+func DropRule(w *World, r *Result, rule string) {
+	n := 0
+	for _, fn := range w.Funcs("parser") {
+		loops := naturalLoops(fn)
+		for _, b := range fn.Blocks {
+			for _, ins := range b.Instrs {
+				al, ok := ins.(*ssa.Alloc)
+				if !ok {
+					continue
+				}
+				st, ok := al.Type().Underlying().(*types.Pointer).Elem().Underlying().(*types.Struct)
+				if !ok || st.NumFields() < 2 {
+					continue
+				}
+				named, ok := al.Type().Underlying().(*types.Pointer).Elem().(*types.Named)
+				if !ok || named.Obj().Pkg() == nil || named.Obj().Pkg().Path() != fn.Pkg.Pkg.Path() {
+					continue
+				}
+				// field stores and whole stores, by loop header
+				fieldIn := map[*ssa.BasicBlock][]string{}
+				var whole []*ssa.Store
+				for _, ref := range *al.Referrers() {
+					switch x := ref.(type) {
+					case *ssa.FieldAddr:
+						for _, rr := range *x.Referrers() {
+							if s, ok := rr.(*ssa.Store); ok && s.Addr == x {
+								for h := loops[s.Block()]; h != nil; h = outerLoop(loops, h) {
+									fieldIn[h] = append(fieldIn[h], st.Field(x.Field).Name())
+								}
+							}
+						}
+					case *ssa.Store:
+						if x.Addr == al {
+							whole = append(whole, x)
+						}
+					}
+				}
+				if len(fieldIn) == 0 {
+					continue
+				}
+				n++
+				key := fmt.Sprintf("drop:%s:%s", FuncName(fn), named.Obj().Name())
+				bad := ""
+				for _, s := range whole {
+					if firstIterationOnly(s.Block()) {
+						continue // the initial value, stored when the loop counter still has its start value
+					}
+					for h := loops[s.Block()]; h != nil; h = outerLoop(loops, h) {
+						if loopBody(h)[al.Block()] {
+							continue // the variable is declared inside this loop: a fresh one per iteration
+						}
+						if fs := fieldIn[h]; len(fs) > 0 {
+							bad = fmt.Sprintf("the %s being assembled is replaced as a whole at %s inside the loop in which its fields %v are filled: parts stored by earlier iterations are dropped from the program", named.Obj().Name(), w.Pos(s.Pos()), uniq(fs))
+						}
+					}
+				}
+				if bad != "" {
+					r.Bad(rule, key, w.Pos(al.Pos()), bad)
+				} else {
+					r.Ok(rule, key, w.Pos(al.Pos()), fmt.Sprintf("assembled field by field inside a loop, never replaced as a whole there"))
+				}
+			}
+		}
+	}
+	if n == 0 {
+		r.Bad(rule, "drop:none", "-", "no node assembled inside a loop found in the parser")
+	}
+}
+
+func outerLoop(loops map[*ssa.BasicBlock]*ssa.BasicBlock, hdr *ssa.BasicBlock) *ssa.BasicBlock {
+	// the innermost loop strictly containing the loop with this header
+	for _, p := range hdr.Preds {
+		if !hdr.Dominates(p) {
+			if h := loops[p]; h != nil && h != hdr {
+				return h
+			}
+		}
+	}
+	return nil
+}
+
+// firstIterationOnly: the block is dominated by the true branch of (counter == start) where
+// counter is a loop-header phi that starts at that constant and only grows.
+func firstIterationOnly(b *ssa.BasicBlock) bool {
+	for d := b; d != nil; d = d.Idom() {
+		p := d.Idom()
+		if p == nil {
+			break
+		}
+		c, neg := condOf(p)
+		bo, ok := c.(*ssa.BinOp)
+		if !ok || bo.Op != token.EQL || neg {
+			continue
+		}
+		if !(p.Succs[0].Dominates(b) && len(p.Succs[0].Preds) == 1) {
+			continue
+		}
+		ph, ok := bo.X.(*ssa.Phi)
+		k, ok2 := bo.Y.(*ssa.Const)
+		if !ok || !ok2 || k.Value == nil {
+			continue
+		}
+		starts, grows := false, true
+		for _, e := range ph.Edges {
+			if ec, ok := e.(*ssa.Const); ok && ec.Value != nil && ec.Int64() == k.Int64() {
+				starts = true
+				continue
+			}
+			inc, ok := e.(*ssa.BinOp)
+			if !ok || inc.Op != token.ADD || inc.X != ph {
+				grows = false
+				continue
+			}
+			if ic, ok := inc.Y.(*ssa.Const); !ok || ic.Value == nil || ic.Int64() <= 0 {
+				grows = false
+			}
+		}
+		if starts && grows {
+			return true
+		}
+	}
+	return false
 }
